@@ -105,6 +105,13 @@ def ground_axioms(enc, ob):
                     L = v1 * m ** (v1 - 1) * 1.0000001
                     add("pow Lipschitz on [m,inf) for exponent < 1 (mean value theorem), m = 1e-3 and 1e-6",
                         f"(=> (and (>= {N(x1)} {fr(m)}) (>= {N(x2)} {fr(m)})) (<= {absr} (* {fr(L)} {absd})))")
+    # square roots (algebraic fresh variables): equal radicands give equal roots, and roots are monotone
+    sq = [(j, n[1]) for j, n in enumerate(nodes) if n[0] == "sqrt" and j in enc.done and n[1] in enc.done]
+    for a in range(len(sq)):
+        for b in range(a + 1, len(sq)):
+            (j1, r1), (j2, r2) = sq[a], sq[b]
+            add("sqrt is a function and monotone: equal / ordered non-negative radicands give equal / ordered roots",
+                f"(=> (and (>= {N(r1)} 0.0) (>= {N(r2)} 0.0)) (and (= (= {N(r1)} {N(r2)}) (= {N(j1)} {N(j2)})) (= (< {N(r1)} {N(r2)}) (< {N(j1)} {N(j2)}))))")
     apps = {}
     for f, a, i in enc.uf_apps:
         apps.setdefault(f, []).append((a, i))
